@@ -309,7 +309,11 @@ func extPoolPut(fr *frame, a []value) value {
 	for _, old := range ps.items {
 		if oi := old.(iface); sameType(oi.t, it.t) {
 			if p, ok := oi.v.(*value); ok && p == it.v {
-				X.Check(tFalse, "sync.Pool: the same object was released twice")
+				// recorded as a violation candidate; execution continues so that
+				// the harness's own checks see the consequences (the pool now
+				// hands the object to two callers), which is what reproduces
+				// natively
+				X.violation("sync.Pool: the same object was released twice", nil)
 			}
 		}
 	}
